@@ -162,6 +162,30 @@ def run(ctx):
                           'after %s: implementation %s | model %s' % (H.fmt_ops(hist), e, g))
     ctx.count(ncmp, 'calls_compared_with_model')
     ctx.stats['model_disagreements'] = nd
+    if nd and not ctx.failures_new():
+        # the model and the code part ways but no call was judged wrong yet: search on from the histories where they do
+        hists = []
+        for e, g, m in zip(expect, got, meta):
+            if e is not None and m is not None and e != g:
+                hists.append(m[0] + [m[1]])
+                if len(hists) >= 6: break
+        nsearch = 0
+        for hist in hists:
+            c = H.new_comp(athlib); ref = H.Ref(); done = []
+            for op in hist:
+                judge.call(c, ref, done, op); done.append(op)
+            frontier = [(list(hist), c, ref)]; seen2 = {full_sig(c)}
+            for d in range(3):
+                nxt = []
+                for path, c, ref in frontier:
+                    for op in alphabet(c, len(c.jumpers)):
+                        c2 = copy.deepcopy(c); r2 = copy.deepcopy(ref)
+                        out, _ = judge.call(c2, r2, path, op); nsearch += 1
+                        if out == 'ok' and full_sig(c2) not in seen2:
+                            seen2.add(full_sig(c2)); nxt.append((path + [op], c2, r2))
+                frontier = nxt[:400]
+            if ctx.failures_new(): break
+        ctx.count(nsearch, 'search_calls_from_diverging_histories')
     ctx.stats['calls_by_kind_and_outcome'] = {'%s/%s' % k: v for k, v in sorted(judge.kinds.items())}
     if nd == 0:
         ctx.oblig('correspondence:HighJumpCompetition vs Lean HJ.step', 'correspondence', True)
